@@ -368,6 +368,11 @@ pub fn table() -> Vec<(&'static str, BuildFn)> {
             let m: smallvec::SmallVec<[P; 4]> = ps.iter().copied().collect();
             (fin(mc, "SmallVec<[T; 4]>", m, ps, errs), ps.len())
         }),
+        ("smallvec::SmallVec zero inline capacity", |mc, ps, _s, errs| {
+            // everything lives in the spilled heap buffer
+            let m: smallvec::SmallVec<[P; 0]> = ps.iter().copied().collect();
+            (fin(mc, "SmallVec<[T; 0]>", m, ps, errs), ps.len())
+        }),
         ("enum_map::EnumMap", |mc, ps, _s, errs| {
             let (a, u) = pad::<4>(ps);
             let m: enum_map::EnumMap<EK, P> = enum_map::EnumMap::from_array(a);
